@@ -294,6 +294,9 @@ def well_formed(grammar):
     def ok_alt(a, in_group=False):
         if not a["items"]:
             return False
+        names = [i["name"] for i in a["items"] if i.get("name")]
+        if len(set(names)) != len(names):
+            return False  # two items of one alternative under the same name: what the action sees is not PEG semantics
         if not all(ok_item(i) for i in a["items"]):
             return False
         if a["action"] is None:
@@ -331,6 +334,7 @@ def gen_grammar(r: random.Random, allow_leftrec=True):
         import copy
 
         c = copy.deepcopy(g)
+        c.pop("name", None)  # the copy is named (or not) by the alternative that uses it: no duplicate names in one alternative
         for a in c["alts"]:
             if a["action"] is None:
                 a["action"] = "tuple"
